@@ -343,21 +343,21 @@ example :
 
 /-! ### stretch: `Circ` agrees with the ideal window on all five `LzBuf` operations -/
 
-theorem circ_sim_ideal {w : Circ} {i : Ideal} (h : Sim w i) :
+theorem circ_sim_ideal {w : Circ} {i : IdealWin} (h : WinSim w i) :
     LzBuf.len w = LzBuf.len i ∧
     (∀ b, LzBuf.lastOr w b = LzBuf.lastOr i b) ∧
     (∀ dist, 1 ≤ dist → LzBuf.lastN w dist = LzBuf.lastN i dist) ∧
     (∀ b s, s.Perfect →
-      SimM (LzBuf.appendLiteral w b s) (LzBuf.appendLiteral i b s) ∧
+      WinSimM (LzBuf.appendLiteral w b s) (LzBuf.appendLiteral i b s) ∧
         (LzBuf.appendLiteral w b s).1.Perfect) ∧
     (∀ len dist s, 1 ≤ dist → s.Perfect →
-      SimM (LzBuf.appendLz w len dist s) (LzBuf.appendLz i len dist s) ∧
+      WinSimM (LzBuf.appendLz w len dist s) (LzBuf.appendLz i len dist s) ∧
         (LzBuf.appendLz w len dist s).1.Perfect) :=
   ⟨h.len, h.lastOr, fun _ h1 => h.lastN h1, fun b _ hs => h.appendLiteral b hs,
     fun len _ _ h1 hs => h.appendLz len h1 hs⟩
 
 theorem sim_fromStream {d : Nat} (m : Nat) (hd : 0 < d) :
-    Sim (Circ.fromStream d m) { dictSize := d, memlimit := m } :=
-  Sim.fromStream m hd
+    WinSim (Circ.fromStream d m) { dictSize := d, memlimit := m } :=
+  WinSim.fromStream m hd
 
 end Lzma.C09
